@@ -97,6 +97,10 @@ structure Plain (c : Cfg) : Prop extends Retrying c where
 
 instance {c : Cfg} : Coe (Plain c) (Retrying c) := ⟨Plain.toRetrying⟩
 
+/-- with retry enabled nothing is ever given up: the ghost record stays untouched -/
+theorem giveUp_eq {c : Cfg} (hc : Retrying c) (s : St) (w : Nat) (inp : Inp) : giveUp c s w inp = s := by
+  simp [giveUp, hc.retry]
+
 @[simp] theorem setW_src (s : St) (w : Nat) (x : Worker) : (setW s w x).src = s.src := rfl
 @[simp] theorem setW_retries (s : St) (w : Nat) (x : Worker) : (setW s w x).retries = s.retries := rfl
 @[simp] theorem setW_ret (s : St) (w : Nat) (x : Worker) : (setW s w x).ret = s.ret := rfl
@@ -280,7 +284,7 @@ theorem inv_settle {c : Cfg} (hc : Retrying c) {pick : List Nat → Option Nat} 
       · exact ⟨inv_congr h rfl rfl rfl rfl rfl rfl (by simp), rfl⟩
   | succ fuel ih =>
     intro F s h
-    simp only [settle]
+    simp only [settle, giveUp_eq hc]
     cases hr : s.retries with
     | nil => exact ⟨h, rfl⟩
     | cons inp rest =>
@@ -323,6 +327,7 @@ theorem inv_tryEnqueue {c : Cfg} (hc : Retrying c) {pick : List Nat → Option N
     {src0 F : List Inp} {s : St} {w : Nat} (h : Inv src0 F s) (hw : w < s.ws.length) :
     Inv src0 F (tryEnqueue c pick s w).1 ∧ (tryEnqueue c pick s w).1.ws.length = s.ws.length := by
   unfold tryEnqueue
+  simp only [giveUp_eq hc]
   have hn := inv_nextInputs h
   generalize hg : nextInputs s = r at hn
   obtain ⟨o, s'⟩ := r
